@@ -73,7 +73,7 @@ func c06Opts(rng *rand.Rand, engine string, n int, rocksWAL bool) ClusterOpts {
 }
 
 func runC06(c *vc.Ctx) error {
-	c.Ev.Rule = "case = (crash point, k-th hit, optional delay before the crash, engine pebble|mem, use_rocks_wal, optimized_fsync on for a fixed third of the cases, config single voter | 3 voters with victim leader/follower, stage: serving process | restarting process after a first kill = double crash) or SIGKILL from outside after n acknowledged writes; plus fixed families in every run: restart before the first snapshot exists (SnapCount > history; external kill and early crash points; single voter and 3-voter victim) and a solo run of batchable writes in the WAL tail behind the newest snapshot followed by a kill of the idle node; workload = 4 sequential single-writer-per-key clients (RPUSH+INCR, HSET+SADD, ZADD+SETEX, PFADD on two HyperLogLog keys, batchable commands SET/HMSET on one hash/SETEX/DEL; unique values, 100..200 writes each; HLL keys are judged by PFCOUNT against reference keys filled after the restart with the admissible element sets, SnapCount 10..30, SnapCatchup 3..5, KeepBackup 2, 8 KiB WAL segments so that snapshots, compactions, checkpoint purges and WAL cuts are crossed); k ranges over 1,2,3,5,8,... up to the hits counted in a dry run of the same script; after the crash the node is restarted on its directory, settle is observed, the full logical dump is compared with the admissible states (acked writes in order, unknown-outcome writes at most once, nothing else) and, with 3 voters, with the other replicas. non-trivial = the crash actually fired (failpoint line logged / external kill done), the node was restarted and compared; distinct by (point,k,delay,engine,config,rockswal,role,stage)"
+	c.Ev.Rule = "case = (crash point, k-th hit, optional delay before the crash, engine pebble|mem, use_rocks_wal, optimized_fsync on for a fixed third of the cases, config single voter | 3 voters with victim leader/follower, stage: serving process | restarting process after a first kill = double crash) or SIGKILL from outside after n acknowledged writes; plus fixed families in every run: restart before the first snapshot exists (SnapCount > history; external kill and early crash points; single voter and 3-voter victim) and a solo run of batchable writes in the WAL tail behind the newest snapshot followed by a kill of the idle node; and crashes right after the snapshot marker is recorded (node.snap.afterSaveSnap/afterSync at the 1st and 2nd snapshot, mem engine) while the checkpoint copy is held in its window; workload = 4 sequential single-writer-per-key clients (RPUSH+INCR, HSET+SADD, ZADD+SETEX, PFADD on two HyperLogLog keys, batchable commands SET/HMSET on one hash/SETEX/DEL; unique values, 100..200 writes each; HLL keys are judged by PFCOUNT against reference keys filled after the restart with the admissible element sets, SnapCount 10..30, SnapCatchup 3..5, KeepBackup 2, 8 KiB WAL segments so that snapshots, compactions, checkpoint purges and WAL cuts are crossed); k ranges over 1,2,3,5,8,... up to the hits counted in a dry run of the same script; after the crash the node is restarted on its directory, settle is observed, the full logical dump is compared with the admissible states (acked writes in order, unknown-outcome writes at most once, nothing else) and, with 3 voters, with the other replicas. non-trivial = the crash actually fired (failpoint line logged / external kill done), the node was restarted and compared; distinct by (point,k,delay,engine,config,rockswal,role,stage)"
 	c.Ev.Assume("kill -9 keeps the page cache: the order of persistence steps is decided, fsync placement (power loss) is not")
 	c.Ev.Assume("engines pebble and mem only; the 10-minute WAL/snap file purge timer is not reachable (covered at package level by C05)")
 	c.Ev.Assume("single-voter cases attribute a loss of at most the newest acknowledged write per client to the publish-before-persist window of processReady (signature ack-before-persist/single-voter), whichever crash point fired; losses of any other shape, and every loss with 3 voters, are acked-write-missing/<point>")
@@ -275,6 +275,30 @@ func runC06(c *vc.Ctx) error {
 				VictimRole: f.role, KillAfter: 60 + rng.Intn(60), MoreAcked: 30, TailRun: f.tail, Directed: "fixed-family"}
 			cs.Opts.OptimizedFsync = f.optFsync
 			cs.Opts.SnapCount = f.snap
+			cs.Opts.SnapCatchup = 5
+			add(cs)
+		}
+	}
+	// (C) the window between "snapshot marker written to snap file + WAL" and "engine
+	// checkpoint complete": the mem engine signals 'started' before it writes the
+	// checkpoint file, the snapshot goroutine must wait for 'done'. Crash at the points
+	// right after SaveSnap at the 1st and 2nd local snapshot while the checkpoint copy is
+	// kept in its window (sleep at engine.mem.checkpoint.afterNotify; larger values).
+	{
+		rng := c.Rand(6995)
+		type fc struct {
+			cfg, role, point string
+			k                int64
+		}
+		for _, f := range []fc{{"single", "", "node.snap.afterSaveSnap", 1}, {"single", "", "node.snap.afterSaveSnap", 2},
+			{"single", "", "node.snap.afterSync", 1}, {"cluster", "follower", "node.snap.afterSaveSnap", 1}} {
+			n := 1
+			if f.cfg == "cluster" {
+				n = 3
+			}
+			cs := &C06Case{Seed: rng.Int63(), Config: f.cfg, Opts: c06Opts(rng, "mem", n, false), Writes: 40, Kind: "failpoint", Point: f.point, K: f.k,
+				VictimRole: f.role, MoreAcked: 30, Directed: "fixed-family", ExtraFP: "engine.mem.checkpoint.afterNotify=sleep(150)", PadBytes: 32768, ThinkMs: 12}
+			cs.Opts.SnapCount = 20
 			cs.Opts.SnapCatchup = 5
 			add(cs)
 		}
